@@ -30,7 +30,7 @@ fn main() {
         ),
         "c03_empty_data" => c03_empty_data(),
         "c05_second_error" => c05_second_error(),
-        "c07_reset_inside_frame" => c07_reset_inside_frame(),
+        "c07_reset_inside_frame" => c07_reset_inside_frame(args.get(2).and_then(|s| s.parse().ok()).unwrap_or(0x10c)),
         "c09_refused_request_blocks_shutdown" => c09_refused_request_blocks_shutdown(),
         "c12_refusal" => c12_refusal(args.get(2).map(|s| s.as_str()).unwrap_or("client")),
         "c12_field_gate" => c12_field_gate(
@@ -40,6 +40,9 @@ fn main() {
         "c12_request_gate" => c12_request_gate(args.get(2).map(|s| s.as_str()).unwrap_or("")),
         "c12_send_order" => c12_send_order(),
         "c10_stale_limit" => c10_stale_limit(),
+        "c03_frame_after_trailers" => c03_frame_after_trailers(),
+        "c08_client_goaways" => c08_client_goaways(args.get(2).map(|s| s.as_str()).unwrap_or("8,4,8")),
+        "c10_431_respects_client_limit" => c10_431_respects_client_limit(),
         "c04_uni_streams" => c04_uni_streams(args.get(2).map(|s| s.as_str()).unwrap_or("duplicates")),
         "c09_split_halves" => c09_split_halves(),
         "c19_payload_with_header" => c19_payload_with_header(),
@@ -80,11 +83,71 @@ fn c05_lost_wakeup(hook: &str) -> i32 {
             return 1;
         }
         if !fired {
-            println!("no pre-emption point left: schedule not reproduced");
-            return 0;
+            break;
         }
         k += 1;
     }
+    // the mirror image: the driver is polled from a pre-emption point inside the request task's raise
+    let rc = c05_driver_polled_inside_raise();
+    if rc == 0 {
+        println!("no pre-emption point left: schedule not reproduced");
+    }
+    rc
+}
+
+/// A request task raises a connection error (set_conn_error_and_wake); at the pre-emption point inside that call the
+/// driver - already parked with a registered waker, as a spawned driver task is - gets polled once (what an executor does
+/// with a task that was just woken, or a driver that is polled for another reason). Whatever the order of 'store' and
+/// 'wake' inside the raise, afterwards the driver must not be parked with the error stored and no wake-up pending.
+fn c05_driver_polled_inside_raise() -> i32 {
+    let mock = Mock::new(true);
+    let conn: h3::server::Connection<Mock, Bytes> =
+        drive(h3::server::builder().build(mock.clone()), 10).expect("build completes").expect("build ok");
+    let shared = conn.inner.shared.clone();
+    let conn = Arc::new(std::sync::Mutex::new(conn));
+    let (count, waker) = counting_waker();
+    // the driver parks first
+    {
+        let mut cx = Context::from_waker(&waker);
+        let r = conn.lock().unwrap().inner.poll_connection_error(&mut cx);
+        if !matches!(r, Poll::Pending) {
+            println!("driver not parked at the start");
+            return 0;
+        }
+    }
+    let polled = Arc::new(std::sync::Mutex::new(Vec::<(String, bool, usize)>::new()));
+    let (conn2, waker2, polled2, count2) = (conn.clone(), waker.clone(), polled.clone(), count.clone());
+    h3::verif_hooks::set_preempt(Some(Box::new(move |name: &'static str| {
+        if name.starts_with("stream:") {
+            let woken_before = count2.0.load(Ordering::SeqCst);
+            let mut cx = Context::from_waker(&waker2);
+            let r = conn2.lock().unwrap().inner.poll_connection_error(&mut cx);
+            polled2.lock().unwrap().push((name.to_string(), matches!(r, Poll::Pending), woken_before));
+        }
+    })));
+    let _ = shared.set_conn_error_and_wake(InternalConnectionError::new(Code::H3_FRAME_UNEXPECTED, "raised by a request task".to_string()));
+    h3::verif_hooks::set_preempt(None);
+    let error_set = shared.get_conn_error().is_some();
+    let woken_total = count.0.load(Ordering::SeqCst);
+    let p = polled.lock().unwrap().clone();
+    let mut rc = 0;
+    for (name, pending, woken_before) in &p {
+        // wake-ups delivered AFTER this poll of the driver
+        let woken_after = woken_total - woken_before;
+        println!(
+            "driver polled at '{}': returned Pending: {}, wake-ups before that poll {}, after it {}, error stored at the end: {}",
+            name, pending, woken_before, woken_after, error_set
+        );
+        if *pending && error_set && woken_after == 0 {
+            println!("REPRODUCED: the driver is parked (Pending, no wake-up after its poll) although a connection error is stored");
+            rc = 1;
+        }
+    }
+    if p.is_empty() {
+        println!("no pre-emption point inside the raise fired");
+    }
+    std::mem::forget(conn);
+    rc
 }
 
 /// Run the raise at the pre-emption point named `hook`, or (hook empty) at the k-th firing of any "driver:" point.
@@ -558,10 +621,10 @@ fn c11_static_find(name: &str, value: &str) -> i32 {
 
 
 /// Server request stream: HEADERS, then a DATA frame announcing 8 bytes of which 3 arrive with the header; the peer
-/// then RESETs the stream (code 0x10c H3_REQUEST_CANCELLED). The reset is a fault confined to this request: recv_data
+/// then RESETs the stream (code given as argument, default 0x10c H3_REQUEST_CANCELLED). The reset is a fault confined to this request: recv_data
 /// must end in StreamError::RemoteTerminate with the peer's code and the connection must stay healthy. Reproduces
 /// (exit 1) if a connection error is raised or another error is reported.
-fn c07_reset_inside_frame() -> i32 {
+fn c07_reset_inside_frame(reset_code: u64) -> i32 {
     let mock = Mock::new(true);
     let mut conn: h3::server::Connection<Mock, Bytes> =
         drive(h3::server::builder().build(mock.clone()), 10).expect("build completes").expect("build ok");
@@ -570,7 +633,7 @@ fn c07_reset_inside_frame() -> i32 {
     let mut bytes = vec![0x01, block.len() as u8];
     bytes.extend_from_slice(&block);
     bytes.extend_from_slice(&[0x00, 0x08, b'a', b'b', b'c']);
-    mock.push_bidi(0, vec![RecvEvent::Data(bytes), RecvEvent::Reset(0x10c)]);
+    mock.push_bidi(0, vec![RecvEvent::Data(bytes), RecvEvent::Reset(reset_code)]);
     let resolver = match drive(conn.accept(), 10) {
         Some(Ok(Some(r))) => r,
         _ => {
@@ -589,6 +652,7 @@ fn c07_reset_inside_frame() -> i32 {
     let mut cx = Context::from_waker(&waker);
     let mut outcome = String::new();
     let mut ok = false;
+    println!("reset code {:#x}", reset_code);
     for i in 0..6 {
         let r = stream.poll_recv_data(&mut cx);
         outcome = match &r {
@@ -596,7 +660,7 @@ fn c07_reset_inside_frame() -> i32 {
             Poll::Ready(Ok(Some(_))) => "chunk".to_string(),
             Poll::Ready(Ok(None)) => "end of body".to_string(),
             Poll::Ready(Err(StreamError::RemoteTerminate { code })) => {
-                ok = code.value() == 0x10c;
+                ok = code.value() == reset_code;
                 format!("RemoteTerminate({:#x})", code.value())
             }
             Poll::Ready(Err(e)) => format!("error {:?}", e),
@@ -1247,6 +1311,173 @@ fn c04_uni_streams(mode: &str) -> i32 {
             }
         }
         _ => return 2,
+    }
+    rc
+}
+
+
+/// Server with a small limit (10) receives a request whose field section is larger; the client has advertised
+/// MAX_FIELD_SECTION_SIZE = L. The automatic 431 answer is a 42-byte field section (":status" + "431" + 32): with L = 41
+/// it must be withheld (nothing written on the request stream), with L = 42 it must be sent. Either way the call ends in
+/// a header-too-big error, never a connection error.
+fn c10_431_respects_client_limit() -> i32 {
+    let mut rc = 0;
+    for limit in [41u8, 42] {
+        let mock = Mock::new(true);
+        let mut b = h3::server::builder();
+        b.max_field_section_size(10);
+        let mut conn: h3::server::Connection<Mock, Bytes> = drive(b.build(mock.clone()), 10).expect("build completes").expect("build ok");
+        // client's control stream: SETTINGS { MAX_FIELD_SECTION_SIZE = limit }
+        mock.push_uni(2, vec![RecvEvent::Data(vec![0x00, 0x04, 0x02, 0x06, limit])]);
+        let block = [0x00u8, 0x00, 0xd1, 0xd7, 0xc1, 0x50, 0x01, b'a'];
+        let mut bytes = vec![0x01, block.len() as u8];
+        bytes.extend_from_slice(&block);
+        mock.push_bidi(0, vec![RecvEvent::Data(bytes), RecvEvent::Fin]);
+        let resolver = match drive(conn.accept(), 10) {
+            Some(Ok(Some(r))) => r,
+            _ => {
+                println!("request not accepted");
+                return 0;
+            }
+        };
+        let r = drive(resolver.resolve_request(), 10);
+        let outcome = match &r {
+            None => "Pending".to_string(),
+            Some(Ok(_)) => "Ok(request)".to_string(),
+            Some(Err(e)) => format!("Err({:?})", e),
+        };
+        let too_big = matches!(&r, Some(Err(StreamError::HeaderTooBig { .. })));
+        std::mem::forget(r);
+        let w = mock.world.lock().unwrap();
+        let sent = w.log.sent.get(&0).map(|b| b.len()).unwrap_or(0);
+        let closed = w.log.closed.len();
+        println!("client limit {}: resolve_request -> {}; bytes written on the request stream {}; close calls {}", limit, outcome, sent, closed);
+        if limit == 41 && sent > 0 {
+            println!("REPRODUCED: the 431 answer (42 bytes) is sent although the client's limit is 41");
+            rc = 1;
+        }
+        if limit == 42 && sent == 0 {
+            println!("REPRODUCED: the 431 answer is withheld although it fits the client's limit");
+            rc = 1;
+        }
+        if !too_big || closed != 0 {
+            println!("REPRODUCED: the oversized request does not end in a header-too-big stream outcome without connection error");
+            rc = 1;
+        }
+        drop(w);
+        std::mem::forget(conn);
+    }
+    rc
+}
+
+
+fn varint_bytes(v: u64) -> Vec<u8> {
+    if v < 1 << 6 {
+        vec![v as u8]
+    } else if v < 1 << 14 {
+        (v as u16 | 0x4000).to_be_bytes().to_vec()
+    } else if v < 1 << 30 {
+        (v as u32 | 0x8000_0000).to_be_bytes().to_vec()
+    } else {
+        (v | 0xc000_0000_0000_0000).to_be_bytes().to_vec()
+    }
+}
+
+/// Client: the server's control stream carries SETTINGS and then GOAWAY frames with the given ids (comma separated), all
+/// in one chunk. Rule (RFC 9114 5.2 / 7.2.6): an id that is not a client-initiated bidirectional stream id, or that is
+/// larger than the id of the GOAWAY before it, is the connection error H3_ID_ERROR; any other sequence is accepted.
+fn c08_client_goaways(ids: &str) -> i32 {
+    let ids: Vec<u64> = ids.split(',').filter_map(|x| x.trim().parse().ok()).collect();
+    let mock = Mock::new(false);
+    let (mut conn, send) = drive(h3::client::builder().build::<_, _, Bytes>(mock.clone()), 10)
+        .expect("build completes").expect("build ok");
+    let mut bytes = vec![0x00, 0x04, 0x00];
+    for id in &ids {
+        let v = varint_bytes(*id);
+        bytes.push(0x07);
+        bytes.push(v.len() as u8);
+        bytes.extend_from_slice(&v);
+    }
+    mock.push_uni(3, vec![RecvEvent::Data(bytes)]);
+    let (_c, waker) = counting_waker();
+    let mut cx = Context::from_waker(&waker);
+    for _ in 0..(ids.len() + 2) {
+        let _ = conn.poll_close(&mut cx);
+    }
+    let closed: Vec<u64> = mock.world.lock().unwrap().log.closed.iter().map(|c| c.0).collect();
+    let mut expect_error = false;
+    for (i, id) in ids.iter().enumerate() {
+        if id & 3 != 0 || (i > 0 && *id > ids[i - 1]) {
+            expect_error = true;
+            break;
+        }
+    }
+    let got_error = closed.contains(&Code::H3_ID_ERROR.value());
+    println!("GOAWAY ids {:?}: close calls {:x?}; H3_ID_ERROR expected: {}", ids, closed, expect_error);
+    std::mem::forget(send);
+    std::mem::forget(conn);
+    if got_error != expect_error || (!expect_error && !closed.is_empty()) {
+        println!("REPRODUCED: the GOAWAY sequence is {} although it must be {}", if got_error { "refused with H3_ID_ERROR" } else { "accepted" }, if expect_error { "refused with H3_ID_ERROR" } else { "accepted" });
+        return 1;
+    }
+    0
+}
+
+
+/// Server request stream: HEADERS, DATA "abc", HEADERS (trailers) arrive in one chunk and the stream stays open; in a later
+/// chunk a frame that must not follow trailers arrives (DATA, then in a second run SETTINGS). The application follows the
+/// documented pattern (recv_data until None, then recv_trailers, polled again whenever it is pending). The sequence is
+/// invalid: it must end in the connection error H3_FRAME_UNEXPECTED, not in a delivered message.
+fn c03_frame_after_trailers() -> i32 {
+    let mut rc = 0;
+    for (name, late) in [("DATA", vec![0x00u8, 0x01, b'x']), ("SETTINGS", vec![0x04, 0x00])] {
+        let mock = Mock::new(true);
+        let mut conn: h3::server::Connection<Mock, Bytes> =
+            drive(h3::server::builder().build(mock.clone()), 10).expect("build completes").expect("build ok");
+        let block = [0x00u8, 0x00, 0xd1, 0xd7, 0xc1, 0x50, 0x01, b'a'];
+        let mut bytes = vec![0x01, block.len() as u8];
+        bytes.extend_from_slice(&block);
+        bytes.extend_from_slice(&[0x00, 0x03, b'a', b'b', b'c']);
+        // trailers: one literal field "t: v"
+        bytes.extend_from_slice(&headers_frame_literal(&[(b"t", b"v")]));
+        mock.push_bidi(0, vec![RecvEvent::Data(bytes), RecvEvent::Pending, RecvEvent::Data(late), RecvEvent::Fin]);
+        let resolver = match drive(conn.accept(), 10) {
+            Some(Ok(Some(r))) => r,
+            _ => {
+                println!("request not accepted");
+                return 0;
+            }
+        };
+        let (_req, mut stream) = match drive(resolver.resolve_request(), 10) {
+            Some(Ok(x)) => x,
+            _ => {
+                println!("request not resolved");
+                return 0;
+            }
+        };
+        loop {
+            match drive(stream.recv_data(), 10) {
+                Some(Ok(Some(_))) => continue,
+                _ => break,
+            }
+        }
+        let t = drive(stream.recv_trailers(), 10);
+        let outcome = match &t {
+            None => "Pending".to_string(),
+            Some(Ok(Some(_))) => "Ok(Some(trailers))".to_string(),
+            Some(Ok(None)) => "Ok(None)".to_string(),
+            Some(Err(e)) => format!("Err({:?})", e),
+        };
+        let closed: Vec<u64> = mock.world.lock().unwrap().log.closed.iter().map(|c| c.0).collect();
+        println!("{} after the trailers in a later chunk: recv_trailers -> {}; close calls {:x?}", name, outcome, closed);
+        let unexpected = matches!(&t, Some(Err(StreamError::ConnectionError(ConnectionError::Local { error: LocalError::Application { code, .. } }))) if *code == Code::H3_FRAME_UNEXPECTED);
+        if !unexpected {
+            println!("REPRODUCED: a frame sequence with {} after the trailers is delivered as a message instead of H3_FRAME_UNEXPECTED", name);
+            rc = 1;
+        }
+        std::mem::forget(t);
+        std::mem::forget(stream);
+        std::mem::forget(conn);
     }
     rc
 }
